@@ -911,7 +911,32 @@ func doReifyPrimitive(
 func reifyDuration(
 	opts fieldOptions,
 	val value,
-	_ reflect.Type,
+	t reflect.Type,
+) (reflect.Value, Error) {
+	// a reference takes the referenced value with its type: a number reached
+	// through references is a number of seconds like one written in place
+	src := val
+	for {
+		dyn, ok := val.(*cfgDynamic)
+		if !ok {
+			break
+		}
+		v, err := dyn.getValue(opts.opts)
+		if err != nil {
+			return reflect.Value{}, raiseInvalidDuration(src, err)
+		}
+		if v == nil {
+			break
+		}
+		val = v
+	}
+	return reifyDurationValue(opts, val, src)
+}
+
+// reifyDurationValue converts val; errors are reported for the setting src.
+func reifyDurationValue(
+	opts fieldOptions,
+	val, src value,
 ) (reflect.Value, Error) {
 	var d time.Duration
 	var err error
@@ -921,18 +946,18 @@ func reifyDuration(
 	switch v := val.(type) {
 	case *cfgInt:
 		if v.i > maxSeconds || v.i < -maxSeconds {
-			return reflect.Value{}, raiseConversion(opts.opts, val, ErrOverflow, "duration")
+			return reflect.Value{}, raiseConversion(opts.opts, src, ErrOverflow, "duration")
 		}
 		d = time.Duration(v.i) * time.Second
 	case *cfgUint:
 		if v.u > uint64(maxSeconds) {
-			return reflect.Value{}, raiseConversion(opts.opts, val, ErrOverflow, "duration")
+			return reflect.Value{}, raiseConversion(opts.opts, src, ErrOverflow, "duration")
 		}
 		d = time.Duration(v.u) * time.Second
 	case *cfgFloat:
 		ns := v.f * float64(time.Second)
 		if !(ns >= math.MinInt64 && ns < math.MaxInt64) {
-			return reflect.Value{}, raiseConversion(opts.opts, val, ErrOverflow, "duration")
+			return reflect.Value{}, raiseConversion(opts.opts, src, ErrOverflow, "duration")
 		}
 		d = time.Duration(ns)
 	case *cfgString:
@@ -941,14 +966,14 @@ func reifyDuration(
 		var s string
 		s, err = val.toString(opts.opts)
 		if err != nil {
-			return reflect.Value{}, raiseInvalidDuration(val, err)
+			return reflect.Value{}, raiseInvalidDuration(src, err)
 		}
 
 		d, err = time.ParseDuration(s)
 	}
 
 	if err != nil {
-		return reflect.Value{}, raiseInvalidDuration(val, err)
+		return reflect.Value{}, raiseInvalidDuration(src, err)
 	}
 	return reflect.ValueOf(d), nil
 }
